@@ -1,9 +1,27 @@
 #!/bin/sh
-# Offline warm build of the harness workspace (hooks on).  Checks rebuild incrementally from
+# Offline warm build of the claimed harness binaries (hooks on). Checks rebuild incrementally from
 # /repo's working tree on every run; this only pays the cold-build cost once.
 set -e
-cd "$(dirname "$0")/harness"
+cd "$(dirname "$0")"
 export CARGO_NET_OFFLINE=true
-export CARGO_TARGET_DIR="$(cd .. && pwd)/.target"
+export CARGO_TARGET_DIR="$(pwd)/.target"
 export RUSTFLAGS="--cfg folo_verif"
-cargo build --release --workspace --bins
+python3 - <<'PY' > .setup_targets.txt
+import json, os
+claimed = open('tools/checks/claimed.txt').read().split()
+seen = []
+for c in claimed:
+    spec = json.load(open('tools/checks/%s.json' % c))
+    for s in spec['steps']:
+        if s.get('kind', 'harness') == 'harness':
+            t = (s['package'], s['bin'])
+            if t not in seen:
+                seen.append(t)
+for p, b in seen:
+    print(p, b)
+PY
+cd harness
+while read -r pkg bin; do
+  cargo build --release -p "$pkg" --bin "$bin"
+done < ../.setup_targets.txt
+rm -f ../.setup_targets.txt
